@@ -193,6 +193,42 @@ def fwMintView (ownerOk : Bool) (b : List Nat) : Except ViewErr (List (SName × 
 def fwTokenView (ownerOk : Bool) (b : List Nat) : Except ViewErr (List (SName × SVal)) :=
   fwView Generated.tokenFields Generated.tokenLen tokenInitialized ownerOk b
 
+/-- `data_unchecked()`: `bytemuck::checked::try_from_bytes` only — size test, then the bit-pattern test. No
+owner, length-constant or initialized test. -/
+def fwUnchecked (fields : List (SName × STy)) (b : List Nat) : Except ViewErr (List (SName × SVal)) :=
+  if b.length ≠ structSize fields then .error .size
+  else match readFields b fields 0 with
+    | none => .error .bitPattern
+    | some vs => .ok vs
+
+/-- `data()`: `if self.is_writable() { self.validate()?; } self.data_unchecked()` — the runtime writable flag of
+the `AccountInfo` decides whether `validate()` (owner, length, cast, initialized) runs again before the cast. -/
+def fwDataView (fields : List (SName × STy)) (len : Nat) (initialized : List (SName × SVal) → Bool)
+    (writable ownerOk : Bool) (b : List Nat) : Except ViewErr (List (SName × SVal)) :=
+  if writable then
+    match fwView fields len initialized ownerOk b with
+    | .error e => .error e
+    | .ok _ => fwUnchecked fields b
+  else fwUnchecked fields b
+
+/-- The account set: `validate()` as extra validation at `validate_accounts`, then the program reads `data()`. -/
+def fwSetView (fields : List (SName × STy)) (len : Nat) (initialized : List (SName × SVal) → Bool)
+    (writable ownerOk : Bool) (b : List Nat) : Except ViewErr (List (SName × SVal)) :=
+  match fwView fields len initialized ownerOk b with
+  | .error e => .error e
+  | .ok _ => fwDataView fields len initialized writable ownerOk b
+
+def fwMintUnchecked (b : List Nat) := fwUnchecked Generated.mintFields b
+def fwTokenUnchecked (b : List Nat) := fwUnchecked Generated.tokenFields b
+def fwMintData (writable ownerOk : Bool) (b : List Nat) :=
+  fwDataView Generated.mintFields Generated.mintLen mintInitialized writable ownerOk b
+def fwTokenData (writable ownerOk : Bool) (b : List Nat) :=
+  fwDataView Generated.tokenFields Generated.tokenLen tokenInitialized writable ownerOk b
+def fwMintSet (writable ownerOk : Bool) (b : List Nat) :=
+  fwSetView Generated.mintFields Generated.mintLen mintInitialized writable ownerOk b
+def fwTokenSet (writable ownerOk : Bool) (b : List Nat) :=
+  fwSetView Generated.tokenFields Generated.tokenLen tokenInitialized writable ownerOk b
+
 def getKey (vs : List (SName × SVal)) (n : SName) : Key :=
   match assoc n vs with | some (.key k) => k | _ => []
 def getNum (vs : List (SName × SVal)) (n : SName) : Nat :=
@@ -263,36 +299,66 @@ inductive ValErr where
   | incorrectAuthority
   deriving DecidableEq, Repr
 
-/-- `MintAccount::validate()?; MintAccount::validate_mint(arg)` in the code's order: decimals, mint
+/-- The comparisons of `validate_mint` on the data `data()` returned, in the code's order: decimals, mint
 authority, freeze authority. -/
-def fwValidateMint (ownerOk : Bool) (b : List Nat) (a : ValidateMintArg) : Except ValErr Unit :=
+def mintChecks (vs : List (SName × SVal)) (b : List Nat) (a : ValidateMintArg) : Except ValErr Unit :=
+  if (match a.decimals with | some d => getNum vs .decimals != d | none => false) then
+    .error .invalidAccountData
+  else if (match a.authority with
+      | some k => !podEqSome (podCell Generated.mintFields b .mint_authority 32) k
+      | none => false) then
+    .error .invalidAccountData
+  else match a.freeze with
+    | .any => .ok ()
+    | .none =>
+      if podIsSome (podCell Generated.mintFields b .freeze_authority 32) then .error .invalidAccountData
+      else .ok ()
+    | .some k =>
+      if !podEqSome (podCell Generated.mintFields b .freeze_authority 32) k then .error .invalidAccountData
+      else .ok ()
+
+/-- `MintAccount::validate_mint(arg)` on its own: `let data = self.data()?;` then the comparisons. -/
+def fwValidateMintDirect (writable ownerOk : Bool) (b : List Nat) (a : ValidateMintArg) : Except ValErr Unit :=
+  match fwMintData writable ownerOk b with
+  | .error e => .error (.view e)
+  | .ok vs => mintChecks vs b a
+
+/-- The `validate_mint` validation id: `self.validate()?; self.validate_mint(arg)`. -/
+def fwValidateMint (writable ownerOk : Bool) (b : List Nat) (a : ValidateMintArg) : Except ValErr Unit :=
   match fwMintView ownerOk b with
   | .error e => .error (.view e)
-  | .ok vs =>
-    if (match a.decimals with | some d => getNum vs .decimals != d | none => false) then
-      .error .invalidAccountData
-    else if (match a.authority with
-        | some k => !podEqSome (podCell Generated.mintFields b .mint_authority 32) k
-        | none => false) then
-      .error .invalidAccountData
-    else match a.freeze with
-      | .any => .ok ()
-      | .none =>
-        if podIsSome (podCell Generated.mintFields b .freeze_authority 32) then .error .invalidAccountData
-        else .ok ()
-      | .some k =>
-        if !podEqSome (podCell Generated.mintFields b .freeze_authority 32) k then .error .invalidAccountData
-        else .ok ()
+  | .ok _ => fwValidateMintDirect writable ownerOk b a
 
-/-- `TokenAccount::validate()?; TokenAccount::validate_token(arg)`: mint, then owner. -/
-def fwValidateToken (ownerOk : Bool) (b : List Nat) (a : ValidateTokenArg) : Except ValErr Unit :=
+/-- `init_account::<IF_NEEDED = true>` on an account the Token program already owns:
+`self.validate()?; self.validate_mint(init_mint.into())?; return Ok(false)` with
+`ValidateMint { decimals: Some, authority: Some, freeze_authority: None | Some }`. -/
+def fwInitMintIfNeeded (writable : Bool) (b : List Nat) (decimals : Nat) (authority : Key)
+    (freeze : Option Key) : Except ValErr Unit :=
+  fwValidateMint writable true b
+    ⟨some decimals, some authority, match freeze with | none => .none | some k => .some k⟩
+
+def tokenChecks (vs : List (SName × SVal)) (a : ValidateTokenArg) : Except ValErr Unit :=
+  if (match a.mint with | some k => getKey vs .mint != k | none => false) then .error .invalidAccountData
+  else if (match a.owner with | some k => getKey vs .owner != k | none => false) then
+    .error .incorrectAuthority
+  else .ok ()
+
+/-- `TokenAccount::validate_token(arg)` on its own: `let data = self.data()?;` then mint, then owner. -/
+def fwValidateTokenDirect (writable ownerOk : Bool) (b : List Nat) (a : ValidateTokenArg) :
+    Except ValErr Unit :=
+  match fwTokenData writable ownerOk b with
+  | .error e => .error (.view e)
+  | .ok vs => tokenChecks vs a
+
+/-- The `validate_token` validation id: `self.validate()?; self.validate_token(arg)`. -/
+def fwValidateToken (writable ownerOk : Bool) (b : List Nat) (a : ValidateTokenArg) : Except ValErr Unit :=
   match fwTokenView ownerOk b with
   | .error e => .error (.view e)
-  | .ok vs =>
-    if (match a.mint with | some k => getKey vs .mint != k | none => false) then .error .invalidAccountData
-    else if (match a.owner with | some k => getKey vs .owner != k | none => false) then
-      .error .incorrectAuthority
-    else .ok ()
+  | .ok _ => fwValidateTokenDirect writable ownerOk b a
+
+/-- `init_account::<true>` on an existing Token-owned account: `validate()?; validate_token({mint, owner})`. -/
+def fwInitTokenIfNeeded (writable : Bool) (b : List Nat) (mint owner : Key) : Except ValErr Unit :=
+  fwValidateToken writable true b ⟨some mint, some owner⟩
 
 /-- The same predicate on the fields the reference unpacker reports. -/
 def refValidateMint (m : Mint) (a : ValidateMintArg) : Except ValErr Unit :=
